@@ -21,6 +21,7 @@ FV = f64.fval
 P52 = float(2 ** 52)
 P40 = float(2 ** 40)
 SUB_ULPS = 6
+SCALE = [1]        # thorough: query budgets x5 (the FP queries are sensitive to machine load)
 
 
 # ------------------------------------------------------------------------------------------------ F64 helpers
@@ -111,7 +112,7 @@ def part_add(chk, timeouts):
             qs.append(solve.Query("add/p%d/no-exception" % i, solve.to_smt2(p.hyp()), solver="cvc5", timeout_s=60,
                                   expect="unsat", info={"exception": repr(p.exception)}, group="add/no-exception"))
             continue
-        qs += harness.path_queries(p, solver="cvc5", timeout_s=60, prefix="add/p%d/" % i, group_prefix="add/")
+        qs += harness.path_queries(p, solver="cvc5", timeout_s=60 * SCALE[0], prefix="add/p%d/" % i, group_prefix="add/")
     return qs
 
 
@@ -148,7 +149,7 @@ def part_add_inf(chk):
             qs.append(solve.Query("inf/p%d/no-exception" % i, solve.to_smt2(p.hyp()), solver="cvc5", timeout_s=60,
                                   expect="unsat", info={"exception": repr(p.exception)}, group="inf/no-exception"))
             continue
-        qs += harness.path_queries(p, solver="cvc5", timeout_s=60, prefix="inf/p%d/" % i, group_prefix="inf/")
+        qs += harness.path_queries(p, solver="cvc5", timeout_s=60 * SCALE[0], prefix="inf/p%d/" % i, group_prefix="inf/")
     return qs
 
 
@@ -176,7 +177,7 @@ def part_from_float(chk):
                                   timeout_s=60, expect="unsat", info={"exception": repr(p.exception)},
                                   group="fromfloat/no-exception"))
             continue
-        qs += harness.path_queries(p, solver="cvc5", timeout_s=120, prefix="fromfloat/p%d/" % i,
+        qs += harness.path_queries(p, solver="cvc5", timeout_s=120 * SCALE[0], prefix="fromfloat/p%d/" % i,
                                    group_prefix="fromfloat/")
     return qs
 
@@ -221,7 +222,7 @@ def part_monotone(chk, prove_lemmas, timeout_s):
     for i, p in enumerate(run_paths(run_b)):
         chk.paths += 1
         if p.exception is None:
-            qs += harness.path_queries(p, solver="cvc5", timeout_s=120, prefix="mono/p%d/" % i, group_prefix="mono/")
+            qs += harness.path_queries(p, solver="cvc5", timeout_s=120 * SCALE[0], prefix="mono/p%d/" % i, group_prefix="mono/")
         else:
             chk.inconclusive_because("mono harness path raised %r" % (p.exception,))
     qs += lemmas
@@ -320,7 +321,7 @@ def part_sub(chk):
     for i, p in enumerate(ex.paths(run)):
         chk.paths += 1
         if p.exception is None:
-            qs += harness.path_queries(p, prefix="sub/p%d/" % i, group_prefix="sub/", timeout_s=120)
+            qs += harness.path_queries(p, prefix="sub/p%d/" % i, group_prefix="sub/", timeout_s=120 * SCALE[0])
     return qs
 
 
@@ -519,6 +520,7 @@ def main():
                      ("addinf", replay_addinf), ("sub", replay_sub), ("infplus", replay_infplus)):
         chk.register_replay(name, fn)
     if chk.thorough:
+        SCALE[0] = 5
         timeouts = {"norm": 900, "joint_exact": 3000}
     else:
         timeouts = {"norm": 300}
